@@ -25,6 +25,7 @@ import QV.Model.Prob
 import QV.Model.States
 import QV.Lemmas.Prob
 import QV.Lemmas.Gibbs
+import QV.Lemmas.PyFlag
 
 namespace QV.Props
 namespace C05
@@ -428,6 +429,28 @@ theorem C05_overwrite {σ : Type} (steps : σ → Prog ℝ σ) (fresh : ℕ) (in
     simp only [gibbsCall, paths_map, List.mem_map, if_true, if_false, Bool.false_eq_true] at hx <;>
     obtain ⟨y, hy, rfl⟩ := hx <;>
     refine ⟨⟨y, hy, rfl, rfl⟩, ?_, ?_, ?_⟩ <;> simp <;> omega
+
+/-- **C05.6b** the buffer contract for the OBJECT passed as `overwrite` (documented as `bool`; the int `1`, a `numpy.bool_`, a
+0-dim bool array or tensor are what callers also pass): `sample` hands the object on and `gibbs_steps` tests its TRUTH VALUE
+(`initial_state if overwrite else initial_state.clone()`), so every clause of `C05_overwrite` holds with `bool(overwrite)` in the
+place of the flag — overwriting was "requested" exactly when the object is truthy.  (In the model of a slip that tests
+`overwrite is True`, i.e. `gibbsCall … overwrite.isTrueSingleton …`, the third clause fails for `PyFlag.npBool true`.) -/
+theorem C05_overwrite_flag {σ : Type} (steps : σ → Prog ℝ σ) (fresh : ℕ) (init : Buf σ)
+    (hfresh : init.id < fresh) (overwrite : PyFlag) :
+    ∀ x ∈ (gibbsCallF steps fresh overwrite init).paths,
+      (∃ y ∈ (steps init.data).paths, x.1.result.data = y.1 ∧ x.2 = y.2)
+      ∧ (overwrite.truthy = false → x.1.caller = init ∧ x.1.result.id ≠ init.id)
+      ∧ (overwrite.truthy = true → init.native = true →
+            x.1.result.id = init.id ∧ x.1.caller = x.1.result)
+      ∧ (overwrite.truthy = true → init.native = false → x.1.caller = init ∧ x.1.result.id ≠ init.id) :=
+  C05_overwrite steps fresh init hfresh overwrite.truthy
+
+/-- **C05.6c** whichever kind of object (`bool`, `int` 0/1, `numpy.bool_`, 0-dim bool array, 0-dim bool tensor: `form` 0…4) the
+caller uses to say `b`, the call is the call with the singleton. -/
+theorem C05_overwrite_any_form {σ : Type} (steps : σ → Prog ℝ σ) (fresh : ℕ) (init : Buf σ) (form : ℕ) (b : Bool) :
+    gibbsCallF steps fresh (PyFlag.ofBool form b) init = gibbsCall steps fresh b init := by
+  unfold gibbsCallF
+  rw [PyFlag.truthy_ofBool]
 
 /-! ## 7. replay soundness -/
 
